@@ -28,7 +28,7 @@ CHECKS.update({
  "C08": ("queue", "E3", "5.3", "seeded schedule search over producers x worker interleavings with a scripted wrapped sink; delivered log must equal the channel-acceptance order at quiescence",
          "Seeded exploration (uniform / PCT / bursty / starve-worker / favour-worker schedulers) of histories of emit, clone and drop on several handles from 1-4 caller tasks against the real QueuingMetricSink worker; at quiescence after faults stop, the strings handed to the wrapped sink must equal, as a sequence, the strings accepted by the queue (exactly once, acceptance order, one at a time).", QNOTE),
  "C09": ("queue", "E3", "5.3", "seeded schedule search with drop timing and queue occupancy varied (starve-worker scheduler, stalls); termination and release of the wrapped sink judged at quiescence",
-         "Seeded exploration of the last drop at every occupancy 0..=capacity (incl. completely full), by main or by a producer task, with the worker running, starved or stalled inside the wrapped sink; after gates open the run must reach quiescence with everything delivered, every background task finished, the wrapped sink dropped exactly once, and no drop ever blocking or panicking.", QNOTE),
+         "Seeded exploration of the last drop at every occupancy 0..=capacity (incl. completely full), by main or by a producer task, with the worker running, starved or stalled inside the wrapped sink; after gates open the run must reach quiescence with everything delivered, every background task finished, the wrapped sink dropped exactly once, and no drop ever blocking or panicking; long backlogs (70-150 queued) with panic storms of 9-65 consecutive panics in front of accepted metrics.", QNOTE),
  "C10": ("queue", "E3", "5.3", "seeded schedule search with the wrapped sink stalled on a gate; emit judged by own-step count, blocked-state count and the channel trace",
          "Seeded exploration with the worker stalled, slow, failing or panicking: emit must never enter a blocked state, take a bounded number of its own steps, return Ok(len) exactly when the channel trace shows room and an error only when the queue holds as many METRICS as the capacity given to the constructor (never exceeded; flushes through a handle and whatever else a variant puts on the channel take no room), never run the wrapped sink on a caller task, and no wrapped-sink error or panic may reach a caller.", QNOTE),
  "C11": ("queue", "E3", "5.3", "seeded schedule search with injected panics (real unwinding through WorkerCore::run into Sentinel::drop, which respawns under the scheduler)",
@@ -42,11 +42,11 @@ CHECKS.update({
 SNOTE = "UDP and Unix datagram sockets are in-memory stubs (ledger of destination, payload, result; injectable result per send incl. EAGAIN, ECONNREFUSED, ENOBUFS, EINTR, ENOENT, EMSGSIZE, and a full buffer that blocks a blocking-mode sender); the real kernel socket is not exercised"
 CHECKS.update({
  "C12": ("sockets", "E5", "5.4", "seeded schedule search over 2-4 emitter tasks sharing one Arc<StatsdClient> over a buffered sink; stream oracle on the merged datagram stream plus a flush barrier",
-         "Seeded exploration of interleavings (scheduling points at lock, socket send, stats atomics, channel send - also while the lock is held - and, in a third of the runs, right after the effect of each of them and after unlock): every datagram is whole lines within capacity or one oversize metric alone, every Ok-acknowledged metric is on the wire exactly once by the final drop and already when a later flush returns Ok, each task's buffered metrics leave in program order. A quarter of the runs also refuse sends (a failed flush of one thread must not damage what another thread emits next).", SNOTE),
+         "Seeded exploration of interleavings (scheduling points at lock, socket send, stats atomics, channel send - also while the lock is held - and, in a third of the runs, right after the effect of each of them and after unlock): every datagram is whole lines within capacity or one oversize metric alone, every Ok-acknowledged metric is on the wire exactly once by the final drop and already when a later flush returns Ok, each task's buffered metrics leave in program order. A quarter of the runs also refuse sends (a failed flush of one thread must not damage what another thread emits next); buffers from 0 to 131072 bytes, metric lengths aimed at exact fits of what the buffer nominally holds.", SNOTE),
  "C13": ("sockets", "E5", "5.5", "seeded simulation of the socket sinks over a stub socket ledger: per-emit datagram matching for unbuffered sinks, the E2 reference model for buffered ones",
-         "Seeded exploration over constructor address forms, blocking modes, metric strings (multi-byte UTF-8, blanks at the edges, embedded newlines, 0..65507 bytes and one over), capacities and send results: one datagram per emit with exactly the metric's bytes to the constructed destination and the socket's own result; buffered sinks follow the C05 model with a single newline and send the rest on flush and drop.", SNOTE),
+         "Seeded exploration over constructor address forms, blocking modes, metric strings (multi-byte UTF-8, blanks at the edges, embedded newlines, 0..65507 bytes and one over), capacities and send results: one datagram per emit with exactly the metric's bytes to the constructed destination and the socket's own result; buffered sinks follow the C05 model with a single newline and send the rest on flush and drop; the framing of every datagram is judged after refused sends too, with metric lengths aimed at exact fits of what is held behind a flush that may have failed.", SNOTE),
  "C14": ("sockets", "E5", "5.5", "seeded schedule search with 1-4 concurrent emitters and injected send failures; stats() compared with the socket ledger at quiescent points, also through a queuing wrapper",
-         "Seeded exploration: at every quiescent point packets_sent+packets_dropped equals the send attempts in the ledger, bytes_sent/bytes_dropped equal the accepted/refused sizes, and for unbuffered sinks the Ok/Err emit results; yield points before every counter update expose a read-modify-write split; the same figures must be read through QueuingMetricSink::stats().", SNOTE),
+         "Seeded exploration: at every quiescent point packets_sent+packets_dropped equals the send attempts in the ledger, bytes_sent/bytes_dropped equal the accepted/refused sizes, and for unbuffered sinks the Ok/Err emit results; yield points before every counter update expose a read-modify-write split; the same figures must be read through QueuingMetricSink::stats(); metrics beyond the UDP datagram limit on the unbuffered sink must be counted as dropped.", SNOTE),
 })
 
 CHECKS.update({
